@@ -17,7 +17,7 @@ from .. import tlc, graph
 from ..core import pool_map
 
 MODULE = "sim/Results.tla"
-DEVS = ["EmptyMergeAliases", "MiscMergeAdds", "SqSumNotMerged"]
+DEVS = ["EmptyMergeAliases", "MiscMergeAdds", "SqSumNotMerged", "SkipCounterCloned"]
 NAME = "res"
 OTHER = "reps"         # a second result name in every set (SUM of 10^(alphabet index)): merges must treat every name alike
 NCHOICE = 3
@@ -36,13 +36,13 @@ ALPHA = {
 }
 
 
-def model(typ, acc, nalpha, maxobs, dev=(), emit=True):
+def model(typ, acc, nalpha, maxobs, dev=(), emit=True, skip=False):
     d = {k: (k in dev) for k in DEVS}
     defs = {"ObsAlpha": tlc.tla(ALPHA[typ][:nalpha]), "Dev": tlc.tla(d)}
     cfg = tlc.cfg_text(constants={"Type": tlc.tla(typ), "Acc": tlc.tla(bool(acc)), "NChoice": str(NCHOICE), "NSets": "3",
-                                  "MaxObs": str(maxobs)},
+                                  "MaxObs": str(maxobs), "SkipOn": "TRUE" if (skip or "SkipCounterCloned" in dev) else "FALSE"},
                        defs=defs, invariants=["PartitionLaw", "Shape", "StatsLaw", "NoSharing"],
-                       properties=["OperandUnchanged"], constraints=["Bound"],
+                       properties=["OperandUnchanged", "SkipLaw"], constraints=["Bound"],
                        action_constraints=["Emit"] if emit else [])
     return cfg, defs
 
@@ -169,6 +169,7 @@ def run_path(job):
 def _run_path(job):
     typ, acc, alpha, edges = job[:4]
     form = job[4] if len(job) > 4 else 0
+    skipon = bool(job[5]) if len(job) > 5 else False
     flag = flag_of(acc, form)
     # a truthy flag that is not `True` may be honoured or ignored, but the same way by every operation of the history
     mode = None if (acc and form % 3) else ("acc" if acc else "noacc")
@@ -201,6 +202,8 @@ def _run_path(job):
                 if op["op"] == "AddNew":
                     sets[s] = SimulationResults()
                     sets[s].add_new_result(OTHER, Result.SUMTYPE, 10 ** (op["k"] - 1))
+                    if skipon and (op["s"] + op["k"]) % 2 == 0:          # HasSkip of the specification: this set carries the runner's counter
+                        sets[s].add_new_result("num_skipped_reps", Result.SUMTYPE, op["k"])
                     if typ == "CHOICE":
                         r = Result.create(NAME, tc, int(v), NCHOICE, accumulate_values=flag)
                         sets[s].add_result(r)
@@ -230,6 +233,12 @@ def _run_path(job):
         except Exception as ex:
             fid = "ChoiceUpdateRaises" if (typ == "CHOICE" and isinstance(ex, AttributeError) and "np.int" in str(ex).replace("numpy", "np") or "has no attribute 'int'" in str(ex)) else None
             return okc, {"step": i, "op": op, "what": f"{op['op']} raised {type(ex).__name__}: {ex}", "fid": fid}
+        for si in range(3):
+            want_sk = [float(x) for x in e["post"]["skp"][si]]
+            have_sk = ([float(r.get_result()) for r in sets[si]["num_skipped_reps"]]
+                       if "num_skipped_reps" in sets[si].get_result_names() else [])
+            if have_sk != want_sk:
+                return okc, {"step": i, "op": op, "what": f"set {si + 1}: num_skipped_reps results hold {have_sk}, the merge law demands {want_sk}", "fid": None}
         for si, exps in enumerate(e["exp"]):
             if exps == ["same"]:
                 exps = cur_exp[si]
@@ -263,8 +272,8 @@ def _run_path(job):
     return okc, None
 
 
-def explore(ctx, typ, acc, nalpha, r):
-    name = f"{typ}/{'acc' if acc else 'noacc'}"
+def explore(ctx, typ, acc, nalpha, r, skip=False):
+    name = f"{typ}/{'acc' if acc else 'noacc'}" + ("/skip-counter" if skip else "")
     ctx.account(r, MODULE, name)
     edges = [{"pre": e["pre"], "post": e["post"], "op": e["op"], "exp": e["exp"]} for e in r.emitted]
     g = graph.Graph(edges, label=lambda e: graph.key(e["op"]))
@@ -273,13 +282,13 @@ def explore(ctx, typ, acc, nalpha, r):
     paths = g.transition_cover(root, max_len=10, rng=rng)
     paths += g.random_walks(root, 200 if ctx.tier == "quick" else 3000, 10, rng)
     alpha = ALPHA[typ][:nalpha]
-    jobs = [(typ, acc, alpha, g.path_edges(p), k) for k, p in enumerate(paths)]
+    jobs = [(typ, acc, alpha, g.path_edges(p), k, skip) for k, p in enumerate(paths)]
     res = pool_map(run_path, jobs, chunksize=max(1, len(jobs) // 64))
     for job, (okc, v) in zip(jobs, res):
         ctx.ok(n=okc)
         ctx.trace_done()
         if v:
-            case = {"type": typ, "acc": acc, "alpha": alpha, "path": job[3], "form": job[4], "failing": v}
+            case = {"type": typ, "acc": acc, "alpha": alpha, "path": job[3], "form": job[4], "skip": skip, "failing": v}
             if v["fid"]:
                 ctx.finding(v["fid"], v["what"], case)
             else:
@@ -290,7 +299,8 @@ def explore(ctx, typ, acc, nalpha, r):
 
 
 def model_devs(ctx):
-    for dev, typ, viol in [("EmptyMergeAliases", "SUM", None), ("MiscMergeAdds", "MISC", None), ("SqSumNotMerged", "RATIO", None)]:
+    for dev, typ, viol in [("EmptyMergeAliases", "SUM", None), ("MiscMergeAdds", "MISC", None), ("SqSumNotMerged", "RATIO", None),
+                           ("SkipCounterCloned", "SUM", None)]:
         cfg, defs = model(typ, True, 2, 3, dev=[dev], emit=False)
         r = tlc.run(MODULE, cfg, defs=defs)
         if not r.violated:
@@ -308,22 +318,25 @@ def run(ctx):
     cfgs = []
     for typ in ("SUM", "RATIO", "CHOICE", "MISC"):
         for acc in (True, False):
-            if not thorough and not acc and typ != "RATIO":
-                continue      # quick: the accumulate-off variants are subsumed except for one representative
+            if not thorough and not acc:
+                continue      # quick: the accumulate-off variants are subsumed; the representative is the skip-counter configuration below
             if thorough and acc and typ in ("SUM", "RATIO"):
                 nalpha, maxobs = 2, 4        # ~20k states, ~4e5 transitions each
             else:
                 nalpha, maxobs = (3 if typ == "CHOICE" and thorough else 2), 3       # thorough: all three choice indexes
             cfgs.append((typ, acc, nalpha, maxobs))
+    # the runner's num_skipped_reps counter carried by some of the sets (merge_all_results has a special rule for it)
+    cfgs.append(("SUM", False, 1, 3, True))            # one-letter alphabet: sets 1 and 3 carry the counter, set 2 does not
     model_devs(ctx)
     # one configuration after the other in the thorough tier (the emitted graphs are large), all at once in the quick tier
     group = 2 if thorough else 8
     for i in range(0, len(cfgs), group):
         part = cfgs[i:i + group]
         with ThreadPoolExecutor(group) as ex:
-            runs = list(ex.map(lambda c: tlc.run(MODULE, *model(*c)[:1], defs=model(*c)[1], coverage=not thorough, timeout=3000, heap="3g"), part))
+            runs = list(ex.map(lambda c: tlc.run(MODULE, *model(*c[:4], skip=(len(c) > 4 and c[4]))[:1], defs=model(*c[:4], skip=(len(c) > 4 and c[4]))[1],
+                                                 coverage=not thorough, timeout=3000, heap="3g"), part))
         for c, r in zip(part, runs):
-            explore(ctx, c[0], c[1], c[2], r)
+            explore(ctx, c[0], c[1], c[2], r, skip=(len(c) > 4 and c[4]))
             r.emitted = None
             r.out = ""
         del runs
@@ -339,7 +352,7 @@ def replay(ctx, data):
     if c.get("kind") == "combine":
         from . import c06_combine
         return c06_combine.replay(ctx, c)
-    okc, v = run_path((c["type"], c["acc"], c["alpha"], c["path"], c.get("form", 0)))
+    okc, v = run_path((c["type"], c["acc"], c["alpha"], c["path"], c.get("form", 0), c.get("skip", False)))
     ctx.ok(n=okc)
     if v:
         if v["fid"]:
